@@ -397,7 +397,7 @@ func (e *Engine) readSet(name string, con *Contract) []string {
 	} else if con != nil && con.External {
 		out = nil // external pure functions: functions of their arguments only unless 'reads' says otherwise
 	} else {
-		out = []string{"H:Bool", "H:Int", "H:Ref", "H:Slice", "H:Str", "MD:Str", "MV:Str:0:Str"}
+		out = []string{"H:Bool", "H:Int", "H:Ref", "H:Slice", "H:Str", "MD:Str", "ML:Str", "MV:Str:0:Str"}
 	}
 	sort.Strings(out)
 	e.readSets[name] = out
